@@ -38,20 +38,24 @@ AllOcc(e) ==
     [] e.t = "S" -> AllOcc(e.e) \cup ToSet(e.r)
     [] e.t = "Q" -> ToSet(e.dom) \cup ToSet(e.cod)
     [] OTHER -> {}
-RECURSIVE DevMath(_)
-DevMath(x) ==
+RECURSIVE DevMathM(_, _)
+\* mode "p": a term that is a single probability is treated like y0's Probability.conditional (subscripts excluded);
+\* mode "e": like Expression.conditional (every name) - the real object may be a product although its meaning is one term
+DevMathM(x, mode) ==
   CASE x.op = "atom" -> x.p
     [] x.op = "one"  -> OneT
     [] x.op = "zero" -> ZeroT
-    [] x.op = "mul"  -> MT(<<DevMath(x.a), DevMath(x.b)>>)
-    [] x.op = "div"  -> FT(DevMath(x.a), DevMath(x.b))
-    [] x.op = "marg" -> ST(x.r, DevMath(x.a))
-    [] x.op = "cond" -> LET e == DevMath(x.a)
-                            occ == IF e.t = "P" THEN {v.n : v \in {w \in TermVars(e) : w.s = 0}} ELSE AllOcc(e)
+    [] x.op = "mul"  -> MT(<<DevMathM(x.a, mode), DevMathM(x.b, mode)>>)
+    [] x.op = "div"  -> FT(DevMathM(x.a, mode), DevMathM(x.b, mode))
+    [] x.op = "marg" -> ST(x.r, DevMathM(x.a, mode))
+    [] x.op = "cond" -> LET e == DevMathM(x.a, mode)
+                            occ == IF e.t = "P" /\ mode = "p" THEN {v.n : v \in {w \in TermVars(e) : w.s = 0}} ELSE AllOcc(e)
                             rest == occ \ ToSet(x.r)
                         IN IF rest = {} THEN FT(e, e) ELSE FT(e, ST(SetToSeq(rest), e))
-    [] x.op = "nmarg" -> LET e == DevMath(x.a) IN FT(e, ST(x.r, e))
-    [] x.op \in {"fsimp", "ssimp", "contract", "rcontract", "canon", "pp", "chain", "fexp", "bexp"} -> DevMath(x.a)
+    [] x.op = "nmarg" -> LET e == DevMathM(x.a, mode) IN FT(e, ST(x.r, e))
+    [] x.op \in {"fsimp", "ssimp", "contract", "rcontract", "canon", "pp", "chain", "fexp", "bexp"} -> DevMathM(x.a, mode)
+DevMath(x) == DevMathM(x, "p")
+DevMathE(x) == DevMathM(x, "e")
 
 \* a value mark (+x / -x) on a variable of a distribution; conditioning such terms is outside the
 \* family (statement and docstrings are silent about summing over a variable that is pinned to a value)
